@@ -226,7 +226,8 @@ class Check:
                 if a.startswith("Closed under"):
                     axs = []
                 else:
-                    axs = re.findall(r"(?m)^([A-Za-z_][A-Za-z0-9_.']*)\s*:", a)
+                    body = a.split("\n", 1)[1] if "\n" in a else ""     # drop the "Axioms:" header line
+                    axs = re.findall(r"(?m)^([A-Za-z_][A-Za-z0-9_.']*)\s*:", body)
                 bad = [x for x in axs if x not in ALLOWED_AXIOMS]
                 self.proof["theorems"].append({"name": th, "axioms": axs})
                 for x in axs:
